@@ -224,7 +224,7 @@ pub fn points09(tier: Tier) -> Vec<P09> {
     let mut v = vec![];
     let bases: Vec<u64> = tier.pick(vec![0, 10, 50, 100], vec![0, 1, 10, 50, 90, 100]);
     let durs: Vec<u64> = tier.pick(vec![DAY, DAY + 1, 100 * DAY, 31_556_926], vec![DAY, DAY + 1, 30 * DAY, 100 * DAY, 182 * DAY, 365 * DAY, 31_556_926]);
-    let mut amounts: Vec<u128> = (1u128..=tier.pick(12, 60)).collect();
+    let mut amounts: Vec<u128> = (1u128..=tier.pick(64, 130)).collect();
     for k in tier.pick(vec![3u32, 6, 12, 18, 24], (2..=24).collect::<Vec<_>>()) {
         amounts.extend([10u128.pow(k) - 1, 10u128.pow(k), 10u128.pow(k) + 1]);
     }
